@@ -14,6 +14,13 @@ MAP={'pushBack':('Gen.push_back','tie_push_back',1,'PushPop'),'pushFront':('Gen.
  'IterOverRange':('Gen.Iter_over_range','tie_iter_over_range',2,'IterTie'),'IterNew':('Gen.Iter_new','tie_iter_new',0,'IterTie'),
  'translateRange':('Gen.translate_range_bounds','tie_translate_range_bounds',2,'IterTie'),'nthBack?':('Gen.nth_back','tie_nth_back',1,'Access'),
 }
+ND={'pushBack':'nd_pushBack _ {s} {h}','pushFront':'nd_pushFront _ {s} {h}','tryPushBack':'nd_tryPushBack _ {s} {h}',
+ 'tryPushFront':'nd_tryPushFront _ {s} {h}','popBack':'nd_popBack {s} {h}','popFront':'nd_popFront {s} {h}',
+ 'swap':'nd_swap _ _ {s} {h}','swapRemoveBack':'nd_swapRemoveBack _ {s} {h}','swapRemoveFront':'nd_swapRemoveFront _ {s} {h}',
+ 'truncateBack':'nd_truncateBack_{mode} _ {s} {h} {hx}','truncateFront':'nd_truncateFront_{mode} _ {s} {h} {hx}',
+ 'clear':'nd_clear_{mode} {s} {h} {hx}','get?':'nd_get _ {s} {h}','front?':'nd_front {s} {h}','back?':'nd_back {s} {h}',
+ 'nthBack?':'nd_nthBack _ {s} {h}','remove':'nd_remove _ {s} {h}','makeContiguous':'nd_makeContiguous {s} {h}',
+ 'dropRange':'nd_dropRange_{mode} _ _ {s} {h} {hx} h1 h2 h3'}
 WANT={'C01':['C01_push_back','C01_push_front','C01_try_push_back','C01_try_push_front','C01_pop_back','C01_pop_front','C01_swap','C01_swap_remove_back','C01_swap_remove_front','C01_truncate_back','C01_truncate_front','C01_clear','C01_remove','C01_make_contiguous'],
  'C02':['C02_push_back','C02_push_front','C02_try_push_back','C02_try_push_front'],
  'C07':['C07_get','C07_front','C07_back','C07_nth_back','C07_make_contiguous'],
@@ -77,6 +84,18 @@ for pid,names in WANT.items():
             for sv in sys_vars:
                 if t == 'tie_translate_range_bounds':
                     rws.append(f"{t} {'_ '*k}{sv}")
+                elif sv in inv and u in ND:
+                    # which kind of "no defect" evidence do the hypotheses of the theorem give?
+                    hx, mode = '', 'nofault'
+                    for x, ty, _ in bn:
+                        if re.fullmatch(r'%s\.faults\.drop = 0' % sv, ty):
+                            hx, mode = x, 'nofault'
+                    if not hx:
+                        for x, ty, _ in bn:
+                            if ty.startswith('¬') and '.kind' in ty:
+                                hx, mode = x, 'any'
+                    nd = ND[u].format(s=sv, h=inv[sv], mode=mode, hx=hx)
+                    rws.append(f"{t} {'_ '*k}{sv} {inv[sv]} ({nd})")
                 elif sv in inv:
                     rws.append(f"{t} {'_ '*k}{sv} {inv[sv]}")
         args=' '.join(x for x,ty,impl in bn if not impl)
@@ -96,7 +115,7 @@ for pid,names in WANT.items():
         out.append(f"theorem {n}_src{binders.rstrip()} :{stmt2.rstrip()} := by\n  first\n"+"\n".join(alts))
     imports="".join(f"import CircBuf.Lemmas.Tie.{g}\n" for g in sorted(groups))
     os.makedirs(P+'Src',exist_ok=True)
-    open(P+f'Src/{pid}.lean','w').write(imports+f"import CircBuf.Props.{pid}\n"+f"""/-!
+    open(P+f'Src/{pid}.lean','w').write(imports+f"import CircBuf.Lemmas.NonDefect\nimport CircBuf.Props.{pid}\n"+f"""/-!
 # {pid} — {DOC[pid]}: the theorems of `Props/{pid}.lean`, restated about the *translated source*
 
 `Generated/Core.lean` is regenerated from `/repo/src/lib.rs` on every run (translator T3,
